@@ -75,6 +75,9 @@ struct Acc {
     rep: EnumReport,
     topics: HashMap<String, String>,
     subs: HashMap<String, String>,
+    /// keyed by the parsed names themselves, i.e. by the `Eq` / `Hash` the managers' maps use
+    topics_by_key: HashMap<TopicName, String>,
+    subs_by_key: HashMap<SubscriptionName, String>,
     only: Option<String>,
 }
 
@@ -121,7 +124,12 @@ impl Acc {
                             self.viol("topic/aliasing", format!("{:?} and a name with (project, id) = {:?} denote the same topic {:?}", s, prev.replace('\u{0}', ", "), tn), s);
                         }
                     } else {
-                        self.topics.insert(ident, canon);
+                        self.topics.insert(ident, canon.clone());
+                    }
+                    match self.topics_by_key.get(tn) {
+                        Some(prev) if *prev != canon => self.viol("topic/equal-although-different", format!("{:?} parses to a name that compares equal (Eq/Hash, as used by the managers' maps) to the name with (project, id) = {:?}", s, prev.replace('\u{0}', ", ")), s),
+                        Some(_) => {}
+                        None => { self.topics_by_key.insert(tn.clone(), canon); }
                     }
                 }
             }
@@ -153,7 +161,12 @@ impl Acc {
                             self.viol("subscription/aliasing", format!("{:?} and a name with (project, id) = {:?} denote the same subscription {:?}", s, prev.replace('\u{0}', ", "), sn), s);
                         }
                     } else {
-                        self.subs.insert(ident, canon);
+                        self.subs.insert(ident, canon.clone());
+                    }
+                    match self.subs_by_key.get(sn) {
+                        Some(prev) if *prev != canon => self.viol("subscription/equal-although-different", format!("{:?} parses to a name that compares equal (Eq/Hash, as used by the managers' maps) to the name with (project, id) = {:?}", s, prev.replace('\u{0}', ", ")), s),
+                        Some(_) => {}
+                        None => { self.subs_by_key.insert(sn.clone(), canon); }
                     }
                 }
             }
@@ -175,7 +188,7 @@ const PLAINLY_VALID: [(&str, bool); 6] = [
 
 fn enumerate(thorough: bool) -> EnumFn {
     Arc::new(move |only: Option<&str>, _known: &dyn Fn(&str) -> bool| {
-        let mut acc = Acc { rep: EnumReport { exhaustive: true, ..Default::default() }, topics: HashMap::new(), subs: HashMap::new(), only: only.map(|s| s.to_string()) };
+        let mut acc = Acc { rep: EnumReport { exhaustive: true, ..Default::default() }, topics: HashMap::new(), subs: HashMap::new(), topics_by_key: HashMap::new(), subs_by_key: HashMap::new(), only: only.map(|s| s.to_string()) };
         let alpha = ["a", "7", "-", "/", "é", "s", "P"];
         let pres = near_misses("projects/", &alpha);
         let mut mids = near_misses("/topics/", &alpha);
